@@ -74,6 +74,8 @@ var holePrograms = []tplSeg{
 	{Hole: "`n{x}m`"}, {Hole: "'}'"}, {Hole: "func g(){5}; g()"},
 	{Hole: "i=0; while i<1 { i=i+1; `q{ if 1 {break} }` }", NoVal: true}, {Hole: "i=0; while i<2 { i=i+1; `{% continue %}r` }", NoVal: true}, {Hole: "while 1 { `s{break}` }", NoVal: true},
 	{Hole: "i=0; while i<2 { i=i+1; if i { `{% if 1 { continue } %}` } }; i"},
+	// blocks whose statements all leave no value (index / attribute / slice assignment): they contribute the empty string
+	{Hole: "xa[0] = 5", NoVal: true}, {Hole: "xd.k = 2", NoVal: true}, {Hole: "xa[0:1] = [7]", NoVal: true}, {Hole: "&xc.k = 3", NoVal: true}, {Hole: "xa[0] = 5; xd.k = 2", NoVal: true}, {Hole: "if x { xa[1] = 4 }", NoVal: true},
 }
 
 var tplLits = []string{"", "a", "中 b", "'\"", "\\n", "%}"}
@@ -184,7 +186,7 @@ func c13Enumerate(tier string, seed int64, emit func(string, any)) {
 	}
 }
 
-const c13Prelude = "x = 2; y = 's'"
+const c13Prelude = "x = 2; y = 's'; xa = [1,2]; xd = {'k':1}; &xc = 1"
 
 func c13Run(raw json.RawMessage) harn.Result {
 	var c c13Case
